@@ -4,8 +4,9 @@ import ast
 from . import rule, info
 from ..program import AnalysisError, src, norm, ClassInfo
 from ..tables import COMPARE_DUNDERS
-from ..util import (is_name, calls_in, callee_qual, deref, ancestors, evaluator_calls, stmt_of, parent,
+from ..util import (flows_into, is_name, calls_in, callee_qual, deref, ancestors, evaluator_calls, stmt_of, parent,
                     handler_outcomes, completes_normally, handler_covers, in_handler_of, raised_class, is_subclass, cls_name)
+from ..pattern import match, matches
 from .common import option_usage, raise_discipline
 
 info('C10',
@@ -90,7 +91,7 @@ def comparison_table(ctx):
     if disj:
         st = stmt_of(disj[0])
         mv = st.targets[0].id if isinstance(st, ast.Assign) and is_name(st.targets[0]) else None
-        gate = [n for n in u.own_nodes() if isinstance(n, ast.If) and is_name(n.test, mv)]
+        gate = [n for n in u.own_nodes() if isinstance(n, ast.If) and (n.test is disj[0] or mv and is_name(n.test, mv))]
         ok = len(gate) == 1 and isinstance(gate[0].body[0], ast.Return) and is_name(gate[0].body[0].value, u.params[1])
         ctx.ob(ok, u, 'a true comparison returns the target; otherwise a MatchError follows')
     # M / M(T-expr) operand substitution
@@ -192,8 +193,12 @@ def who_is_returned(ctx):
     if len(kev) == 1 and len(vev) == 1:
         kn, vn = cfg.node_containing(kev[0]), cfg.node_containing(vev[0])
         hs = cfg.handlers_reached_from(kn)
-        ok = len(hs) == 1 and p.global_qualname(u, hs[0].ast.type) == 'core.GlomError' and set(handler_outcomes(cfg, hs[0])) == {'continue'}
-        ctx.ob(ok, u, 'a case whose key rejects is skipped')
+        hdr = cfg.node_of(loops[0])
+        ok = len(hs) == 1 and p.global_qualname(u, hs[0].ast.type) == 'core.GlomError' \
+            and set(handler_outcomes(cfg, hs[0])) <= {'continue', 'normal'} \
+            and cfg.find_path(hs[0], {vn}, avoid={hdr}) is None \
+            and cfg.find_path(hs[0], {hdr}, labels=lambda lab: lab != 'exc') is not None
+        ctx.ob(ok, u, 'a case whose key rejects is skipped (its value spec is not evaluated, the next case is tried)')
         st = stmt_of(vev[0])
         ctx.ob(isinstance(st, ast.Return) and st.value is vev[0] and cfg.dominates(kn, vn), u,
                'the first passing key\'s value spec is evaluated and returned at once: %s' % norm(st))
@@ -253,10 +258,33 @@ def defaults(ctx):
             after |= set(ast.walk(st))
     ctx.ob(bool(dflt) and all(d in after for d in dflt), u, 'Switch consults its default only after the case loop',
            '' if dflt and all(d in after for d in dflt) else 'self.default is read before / inside the loop')
-    tail = u.node.body[u.node.body.index(loops[0]) + 1:] if loops else []
-    ok = len(tail) == 2 and isinstance(tail[0], ast.If) and norm(tail[0].test) == 'self.default is not _MISSING' \
-        and isinstance(tail[1], ast.Raise)
-    ctx.ob(ok, u, 'no case passed: the default if given, else a MatchError')
+    ok = False
+    why = 'no `self.default is [not] _MISSING` test after the case loop'
+    if loops:
+        scfg = ctx.cfg(u)
+        hdr = scfg.node_of(loops[0])
+        nonexc = lambda lab: lab != 'exc'
+        for t in scfg.nodes:
+            if t.kind != 'test' or hdr in t.loop_stack:
+                continue
+            given = 'true' if matches(t.ast, 'self.default is not _MISSING') else \
+                'false' if matches(t.ast, 'self.default is _MISSING') else None
+            if given is None:
+                continue
+            missing = 'false' if given == 'true' else 'true'
+            rets = {n for n in scfg.nodes if n.kind == 'stmt' and isinstance(n.ast, ast.Return)
+                    and hdr not in n.loop_stack}
+            dret = {n for n in rets if any(isinstance(x, ast.Attribute) and x.attr == 'default' for x in ast.walk(n.ast))}
+            raises = {n for n in scfg.nodes if n.kind == 'stmt' and isinstance(n.ast, ast.Raise)
+                      and is_subclass(raised_class(p, u, n.ast), 'MatchError')}
+            on = lambda e: (lambda lab: lab == e)
+            ok = scfg.find_path(hdr, {scfg.exit, scfg.raise_exit}, avoid={t}, labels=nonexc, start_labels=on('false')) is None \
+                and scfg.find_path(t, dret, labels=nonexc, start_labels=on(given)) is not None \
+                and scfg.find_path(t, (rets - dret) | raises, labels=nonexc, start_labels=on(given)) is None \
+                and scfg.find_path(t, raises, labels=nonexc, start_labels=on(missing)) is not None \
+                and scfg.find_path(t, rets, labels=nonexc, start_labels=on(missing)) is None
+            why = '' if ok else 'after `%s` the outcomes are not (default returned | MatchError raised)' % norm(t.ast)
+    ctx.ob(ok, u, 'no case passed: the default if given, else a MatchError', why)
     # Check: default is returned only on a rejection path
     u = ctx.unit('matching.Check.glomit')
     rets = [n for n in u.own_nodes() if isinstance(n, ast.Return)]
@@ -352,9 +380,15 @@ def check_enforces(ctx):
     for n in iu.own_nodes():
         if isinstance(n, ast.Assign) and isinstance(n.targets[0], ast.Attribute) and is_name(n.targets[0].value, 'self'):
             stores.setdefault(n.targets[0].attr, []).append(n.value)
+    others = {k: v for k, v in pops.items()}
+
     def from_kw(attr, kwname, pos):
+        # the stored value derives from this option's local and from no other option's
         vals = stores.get(attr, [])
-        return any(isinstance(v, ast.Call) and len(v.args) > pos and is_name(v.args[pos], pops.get(kwname)) for v in vals)
+        flow = flows_into(iu, vals)
+        mine = pops.get(kwname)
+        return bool(vals) and mine in flow and not any(v in flow for k, v in others.items()
+                                                      if k not in (kwname, 'default') and v != mine)
     ctx.ob(from_kw('validators', 'validate', 3), iu, 'validate= feeds the validators')
     ctx.ob(from_kw('types', 'type', 3), iu, 'type= feeds the exact-type condition')
     ctx.ob(from_kw('instance_of', 'instance_of', 3), iu, 'instance_of= feeds the isinstance condition')
